@@ -46,11 +46,19 @@ def fft_case(draw):
         k = 2 if name in TWO_D else draw(st.integers(1, rank))
         perm = draw(st.permutations(range(rank)))[:k]
         axes = [a - rank if draw(st.booleans()) else a for a in perm]
-        if name in TWO_D and draw(st.booleans()):
+        omit = draw(st.integers(0, 3)) == 0
+        if name in TWO_D and omit:
             axes = [-2, -1]
+        elif name not in TWO_D and omit:
+            # axes omitted: all axes, or -- when s is given -- the last len(s) axes
+            if draw(st.booleans()):
+                axes = list(range(-draw(st.integers(1, rank)), 0))
+                kw["s"] = [draw(st.integers(1, 7)) for _ in axes]
+            else:
+                axes = list(range(rank))
         else:
             kw["axes"] = axes
-        if draw(st.integers(0, 2)) == 0:
+        if "s" not in kw and draw(st.integers(0, 2)) == 0:
             kw["s"] = [draw(st.integers(1, 7)) for _ in axes]
     if name in ("irfft", "irfft2", "irfftn", "hfft") and "n" not in kw and "s" not in kw and shape[axes[-1] % rank] < 2:
         # default output length 2*(m-1) = 0: degenerate (the references disagree among themselves: irfft raises, irfft2 returns length 1)
